@@ -3,6 +3,8 @@ from __future__ import annotations
 
 import numpy as np
 
+from fractions import Fraction
+
 from harness.C03 import _stub_doe_library
 from harness.common import _plain, _py, build_space, check_array, check_shape, elems, rint
 
@@ -13,7 +15,7 @@ META = dict(
     ),
     outside=["the samplers themselves (SciPy qmc, OpenTURNS, pyDOE, RNG code): that they return points of the unit cube, their sample counts and seed determinism are assumptions, not results",
              "CustomDOE file parsing", "the level computation of full-factorial designs (int(n ** (1/d)) is a float operation)"],
-    stubs=["unit sampler -> symbolic matrix in [0,1]^{S x d}", "float bounds injected into Variable.__dict__"],
+    stubs=["diagonal_doe.hstack -> object-dtype array of the same floats (diagonal harness)", "unit sampler -> symbolic matrix in [0,1]^{S x d}", "float bounds injected into Variable.__dict__"],
     assumptions=["unit samples lie in [0,1]", "lb <= ub, integer bounds integral"],
 )
 
@@ -143,6 +145,49 @@ def h_custom(ctx, cfg):
     check_array(ctx, "given samples untouched", given, rows)
 
 
+def h_diagonal(ctx, cfg):
+    """DiagonalDOE (gemseo's own pure-Python sampler): exactly n_samples points on the diagonal of the (symbolic) bounds, from the
+    lower to the upper corner (or reversed for the listed variables), integer components integral and within bounds."""
+    from gemseo.algos.doe.diagonal_doe.diagonal_doe import DiagonalDOE
+
+    if ctx.symbolic:
+        import gemseo.algos.doe.diagonal_doe.diagonal_doe as ddm
+        from symgem.core import SymArray
+
+        ctx.patch(ddm, "hstack", lambda arrays: SymArray(np.hstack(arrays)))   # float64 storage -> exact object storage
+    ds, info = build_space(ctx, LAYOUTS[cfg["layout"]])
+    d, n = info.n, cfg["n_samples"]
+    reverse = list(cfg.get("reverse", []))
+    out = DiagonalDOE().compute_doe(ds, n_samples=n, reverse=reverse)
+    ctx.observe("samples", np.ravel(out))
+    if not check_shape(ctx, "exactly n_samples samples", out, (n, d)):
+        return
+    sm = _plain(out) if isinstance(out, np.ndarray) else np.asarray(out, dtype=object)
+    names = [nm for nm, size in zip(info.names, info.sizes) for _ in range(size)]
+    for j in range(d):
+        rev = names[j] in reverse or str(j) in reverse
+        for k in range(n):
+            t = Fraction(k, n - 1) if n > 1 else Fraction(0)
+            if rev:
+                t = 1 - t
+            tt = float(t) if not ctx.symbolic else _exact(t)
+            img = info.lb[j] + tt * (info.ub[j] - info.lb[j])
+            v = _py(sm[k, j])
+            ctx.check(f"sample[{k},{j}] within the bounds", ctx.and_(ctx.le(info.lb[j], v), ctx.le(v, info.ub[j])))
+            if info.is_int[j]:
+                ctx.check(f"sample[{k},{j}] integer", ctx.is_int(v))
+                ctx.check(f"sample[{k},{j}] on the diagonal (rounded)", ctx.and_(ctx.le(v - img, 0.5), ctx.le(img - v, 0.5)))
+            elif k in (0, n - 1) or float(t).is_integer() or (t.denominator & (t.denominator - 1)) == 0:
+                # linspace is a float64 computation: only dyadic abscissae are exact
+                ctx.check(f"sample[{k},{j}] on the diagonal", ctx.eq(v, img))
+
+
+def _exact(fr):
+    from symgem.core import SymReal, _ratval
+
+    return SymReal(_ratval(fr))
+
+
 def configs(tier):
     out = []
     quick = tier == "quick"
@@ -155,6 +200,11 @@ def configs(tier):
         out.append(("compute_doe", dict(layout=lay, S=2, int_norm_initial=False, unit_sampling=True)))
     for lay in ("B", "Ci", "iC", "i"):
         out.append(("execute", dict(layout=lay, S=2)))
+    for lay in ("B", "B,B", "Ci", "iC"):
+        for n_s in (2, 3, 5):
+            out.append(("diagonal", dict(layout=lay, n_samples=n_s)))
+    out.append(("diagonal", dict(layout="B,B", n_samples=3, reverse=["yy"])))
+    out.append(("diagonal", dict(layout="BB", n_samples=3, reverse=["1"])))
     for lay in ("B", "BB", "Ci", "iC"):
         for with_space in (True, False):
             out.append(("custom", dict(layout=lay, S=2, with_space=with_space)))
@@ -169,4 +219,4 @@ def crosshair_targets(tier):
             for n in ("_explicit_seed_returned", "_default_seed_sequence", "_explicit_then_default", "_two_seeders_agree")]
 
 
-HARNESSES = {"compute_doe": h_compute_doe, "execute": h_execute, "custom": h_custom}
+HARNESSES = {"compute_doe": h_compute_doe, "execute": h_execute, "custom": h_custom, "diagonal": h_diagonal}
